@@ -41,6 +41,119 @@ func vsFits(in []uint8, off uint) bool {
 
 // vsBinContainer: 0xFE, start, end = start+length-1, exec = start, image.
 func vsBinContainer(g *VGhost, off uint16) bool {
-	return g.Trunc && g.NC == 5 && vsIsByte(g.C0, 0xfe) && vsIsU16(g.C1, off) && vsIsU16(g.C2, off+uint16(len(g.In))-1) &&
-		vsIsU16(g.C3, off) && vsSame(g.C4, g.In)
+	return g.Trunc && vsStreamLen(g) == 7+len(g.In) && vsStreamAt(g, 0) == 0xfe &&
+		vsU16At(g, 1, off) && vsU16At(g, 3, off+uint16(len(g.In))-1) && vsU16At(g, 5, off) && vsBodyAt(g, 7)
+}
+
+// The output file is the concatenation of the chunks, whatever their number
+// and sizes (how the program batches its writes is not part of the format).
+func vsStreamLen(g *VGhost) int {
+	n := 0
+	if g.NC > 0 {
+		n += len(g.C0)
+	}
+	if g.NC > 1 {
+		n += len(g.C1)
+	}
+	if g.NC > 2 {
+		n += len(g.C2)
+	}
+	if g.NC > 3 {
+		n += len(g.C3)
+	}
+	if g.NC > 4 {
+		n += len(g.C4)
+	}
+	if g.NC > 5 {
+		n += len(g.C5)
+	}
+	if g.NC > 6 {
+		n += len(g.C6)
+	}
+	if g.NC > 7 {
+		n += len(g.C7)
+	}
+	if g.NC > 8 {
+		n += len(g.C8)
+	}
+	if g.NC > 9 {
+		n += len(g.C9)
+	}
+	return n
+}
+
+// vsStreamAt: byte i of the output file (0 outside).
+func vsStreamAt(g *VGhost, i int) uint8 {
+	if i < 0 {
+		return 0
+	}
+	if g.NC > 0 {
+		if i < len(g.C0) {
+			return g.C0[i]
+		}
+		i -= len(g.C0)
+	}
+	if g.NC > 1 {
+		if i < len(g.C1) {
+			return g.C1[i]
+		}
+		i -= len(g.C1)
+	}
+	if g.NC > 2 {
+		if i < len(g.C2) {
+			return g.C2[i]
+		}
+		i -= len(g.C2)
+	}
+	if g.NC > 3 {
+		if i < len(g.C3) {
+			return g.C3[i]
+		}
+		i -= len(g.C3)
+	}
+	if g.NC > 4 {
+		if i < len(g.C4) {
+			return g.C4[i]
+		}
+		i -= len(g.C4)
+	}
+	if g.NC > 5 {
+		if i < len(g.C5) {
+			return g.C5[i]
+		}
+		i -= len(g.C5)
+	}
+	if g.NC > 6 {
+		if i < len(g.C6) {
+			return g.C6[i]
+		}
+		i -= len(g.C6)
+	}
+	if g.NC > 7 {
+		if i < len(g.C7) {
+			return g.C7[i]
+		}
+		i -= len(g.C7)
+	}
+	if g.NC > 8 {
+		if i < len(g.C8) {
+			return g.C8[i]
+		}
+		i -= len(g.C8)
+	}
+	if g.NC > 9 {
+		if i < len(g.C9) {
+			return g.C9[i]
+		}
+	}
+	return 0
+}
+
+func vsU16At(g *VGhost, i int, v uint16) bool {
+	return vsStreamAt(g, i) == uint8(v) && vsStreamAt(g, i+1) == uint8(v>>8)
+}
+
+// vsBodyAt: the image follows the hdr header bytes, unmodified.
+func vsBodyAt(g *VGhost, hdr int) bool {
+	return vsForallIdx(func(i int) bool { return i < 0 || i >= len(g.In) || vsStreamAt(g, hdr+i) == g.In[i] })
 }
